@@ -741,11 +741,11 @@ def links (d : Design) : List Link := equalLinks d ++ pairLinks d
 
 /-- parity reachability in the link graph: what "the specification forces equal (`false`) /
     complementary (`true`)" means -/
-inductive ParityReach (d : Design) : Var → Bool → Var → Prop
-  | refl (v : Var) : ParityReach d v false v
-  | fwd {v w : Var} {p : Bool} (e : Link) : ParityReach d v p w → e ∈ links d → e.a = w →
+inductive ParityReach (d : Design) (v : Var) : Bool → Var → Prop
+  | refl : ParityReach d v false v
+  | fwd {w : Var} {p : Bool} (e : Link) : ParityReach d v p w → e ∈ links d → e.a = w →
       ParityReach d v (p != e.odd) e.b
-  | bwd {v w : Var} {p : Bool} (e : Link) : ParityReach d v p w → e ∈ links d → e.b = w →
+  | bwd {w : Var} {p : Bool} (e : Link) : ParityReach d v p w → e ∈ links d → e.b = w →
       ParityReach d v (p != e.odd) e.a
 
 /-- the two nucleotides are forced equal (`false`) / complementary (`true`) -/
